@@ -14,6 +14,23 @@ prop("C01", True,
      "Generated-input search over (algorithm, old, new, ranges): every callback stream is judged by an independent validator written from the statement (order, contiguity, coverage, non-empty, element-wise equality, carried indices within their change run), by replaying the callbacks, and by three differential runs. Exhaustive for the stated small scopes, sampled above them; no absence proof.",
      "u32 items; sizes <= 300; panics located in /repo count as violations; the validator itself is the trusted base")
 
+prop("C02", True,
+     "property-based testing: enumeration + proptest generation of (inputs, sub-ranges, entry point, deadline expiry index) against an op-list walk validator and an apply/invert round trip; text diffs over 5 tokenizers",
+     "Generated-input search; the oracle walks primary indices, checks element equality of Equal ops, applies and inverts the ops, checks identical-input and ratio clauses. Deadline expiry points are chosen by the harness through the virtual clock hook. Bounded exploration, exhaustive for the small enumerated scope.",
+     "virtual clock hook places expiry at probe k; u32 items / atom-built texts; carried indices left to C11")
+prop("C03", True,
+     "property-based testing: enumeration + proptest generation against an independent O(NM) LCS-length reference (differential oracle on script cost and ratio)",
+     "Every generated (Myers|Lcs) diff is compared with a reference LCS length: raw stream and captured ops must cost exactly N+M-2L and keep L items; get_diff_ratio and TextDiff::ratio must equal 2L/(N+M). Exhaustive over all pairs of a 3-letter alphabet up to the stated length, sampled above.",
+     "reference DP is the trusted base; LCS inputs <= 100 items, Myers <= 300")
+prop("C09", True,
+     "property-based testing: enumeration + proptest generation against a normal-form predicate (alternation, non-empty, Replace merging, latest-position rule)",
+     "Generated-input search over inputs x sub-ranges x entry points x deadline expiry index; the predicate is the statement clause by clause. Exhaustive for all binary pairs up to the stated length.",
+     "virtual clock hook; C10 adds arbitrary scripts through Compact+Replace")
+prop("C11", True,
+     "property-based testing: enumeration + proptest generation against an exact carried-index walk and an independent hunk-header computation; known finding attributed by differential re-execution with the swap-repair hook",
+     "Generated-input search; each case is judged on pinned behaviour first; a carried-index/header mismatch is re-executed with the swap repair on and only counts as the known finding D7 if it disappears, otherwise it is reported. Primary-index mismatches are always reported.",
+     "swap-repair hook used for attribution only; known finding listed in KNOWN_FINDINGS.txt")
+
 def main():
     checks = []
     na = []
